@@ -26,7 +26,9 @@ static void on_alarm(int sig) {
 
 /* names with dots, spaces, non-ASCII bytes, the empty name: ids 19001.. */
 static const char* const special_names[] = {
-    "a.b.c", "ratio.", ".hidden", "stats.v", "v", "hidden", "c", "nosuch.v", "with space", "na\xc3\xafve.\xc3\xa9", "", ".", "..", "b.c", NULL };
+    "a.b.c", "ratio.", ".hidden", "stats.v", "v", "hidden", "c", "nosuch.v", "with space", "na\xc3\xafve.\xc3\xa9", "", ".", "..", "b.c",
+    /* pairs that collide under common 32-bit string hashes (FNV-1a x4, FNV-1, djb2 x2, djb2-xor, sdbm, murmur3/0, xxh32/0, crc32) */
+    "costarring", "liquid", "declinate", "macallums", "altarage", "zinke", "k_4e62", "col48001", "col7659", "k_3e4c", "hetairas", "mentioner", "mmozp", "nfzsxz", "k_7ff0", "k_8690", "dgdbqrvhx", "mjputv", "col34941", "k_19c7c", "k_1b19e", "col141341", "gpfazyks", "mxxbif", NULL };
 
 static int all_digits(const char* s) { if (!*s) return 0; for (; *s; s++) if (*s < '0' || *s > '9') return 0; return 1; }
 
